@@ -22,9 +22,10 @@ while IFS='	' read -r id demo dest pkg run; do
     echo "$id | baseline: $base | with: $with | without: $without"; continue
   fi
   cp "$d/$demo" "$W/$dest/zz_seed_demo_test.go"
-  with=$(cd $W/v2 && go test -mod=mod -vet=off -count=1 -run "$run" "$pkg" 2>&1 | tail -1)
+  case "$dest" in v2/*) mod=$W/v2;; *) mod=$W;; esac   # demos of the root module run from the worktree root
+  with=$(cd $mod && go test -mod=mod -vet=off -count=1 -run "$run" "$pkg" 2>&1 | tail -1)
   git reset -q --hard; 
-  without=$(cd $W/v2 && go test -mod=mod -vet=off -count=1 -run "$run" "$pkg" 2>&1 | tail -1)
+  without=$(cd $mod && go test -mod=mod -vet=off -count=1 -run "$run" "$pkg" 2>&1 | tail -1)
   rm -f "$W/$dest/zz_seed_demo_test.go"; git clean -fdq
   echo "$id | baseline: $base | with: $with | without: $without"
 done < /verif/tools/seeds.tsv
